@@ -84,7 +84,9 @@ class Context:
         self.extra.setdefault("floors", []).append(
             {"rule": rule, "what": what, "found": found, "minimum": minimum}
         )
-        if found < minimum:
+        if found < minimum and self.violations:
+            self.note(f"{rule}: {found} < {minimum} instance(s) of `{what}` (explained by the reported violation(s))")
+        elif found < minimum:
             raise AnalysisError(
                 f"{rule}: only {found} instance(s) of `{what}` located, expected at least {minimum}; "
                 "an anchor was renamed or restructured beyond what the rule recognises"
